@@ -1,3 +1,29 @@
-// Kani contracts for /repo/src/stdlib/to_float.rs (child module via cfg(kani) hook).
+// Kani contracts for /repo/src/stdlib/to_float.rs
 #![allow(warnings)]
 use super::*;
+use crate::compiler::kani_support::*;
+
+// @unit tier=q prop=C29 float=1 fn=to_float
+#[kani::proof]
+#[kani::unwind(2)]
+#[kani::stub(alloc::fmt::format, stub_format)]
+#[kani::stub(regex::Regex::new, stub_regex_new)]
+#[kani::stub(crate::compiler::conversion::Conversion::convert, stub_conversion_convert)]
+fn k_to_float_scalar() {
+    let i: i64 = kani::any();
+    let r1 = to_float(Value::Integer(i));
+    assert!(matches!(&r1, Ok(Value::Float(x)) if x.into_inner() == (i as f64)), "C29.to_float.int: to_float of an integer is `i as f64` (so to_float(to_int(x)) == x as f64 for integers)");
+    let f: f64 = kani::any();
+    kani::assume(!f.is_nan());
+    let r2 = to_float(Value::Float(NotNan::new(f).unwrap()));
+    assert!(matches!(&r2, Ok(Value::Float(x)) if x.into_inner().to_bits() == f.to_bits()), "C29.to_float.float: to_float of a float is that float");
+    let b: bool = kani::any();
+    let r3 = to_float(Value::Boolean(b));
+    assert!(matches!(&r3, Ok(Value::Float(x)) if x.into_inner() == (if b { 1.0 } else { 0.0 })), "C29.to_float.bool: to_float(true) == 1.0, to_float(false) == 0.0");
+    let r4 = to_float(Value::Null);
+    assert!(matches!(&r4, Ok(Value::Float(x)) if x.into_inner() == 0.0), "C29.to_float.null: to_float(null) == 0.0");
+    core::mem::forget(r1);
+    core::mem::forget(r2);
+    core::mem::forget(r3);
+    core::mem::forget(r4);
+}
